@@ -145,11 +145,12 @@ def check_text(text, external, fam, label, res, desc):
     for nm, sg in module_signatures(text).items():
         if not HEX.search(nm) and nm != 'HWSystem':
             res['modsigs'].setdefault(nm, {}).setdefault(repr(sg[0]), [sg[1], label, desc])
+            res['modbodies'].setdefault(nm, {}).setdefault(sg[1], [label, desc])
 
 
 def run_shard(d):
     res = {'evaluations': 0, 'distinct_nontrivial': 0, 'refused': 0, 'constructor_rejected': 0, 'outside_subset': 0,
-           'violations': [], 'samples': [], '_outcomes': set(), 'modsigs': {}}
+           'violations': [], 'samples': [], '_outcomes': set(), 'modsigs': {}, 'modbodies': {}}
     tier, fam = d['tier'], d['family']
     for i in range(d['lo'], d['hi']):
         desc = {'family': fam, 'index': i, 'tier': tier}
@@ -210,6 +211,23 @@ def finish(cov, results, tier):
                 'sig': 'C03:R8:%s' % re.sub(r'\d+', '#', nm), 'shard': ia[2], 'trace': [],
                 'detail': {'rule': 'R8', 'message': 'module name %s is emitted with different port lists' % nm,
                            'ports_1': pa, 'from_1': ia[2].get('design'), 'ports_2': pb, 'from_2': ib[2].get('design')}})
+    # same name and same ports but a different body: the instance would be bound to whichever body was emitted first
+    bodies = {}
+    for r in results:
+        for nm, byb in r.get('modbodies', {}).items():
+            for h, info in byb.items():
+                bodies.setdefault(nm, {}).setdefault(h, info)
+        r.pop('modbodies', None)
+    nb = 0
+    for nm, byb in sorted(bodies.items()):
+        if len(byb) > 1 and len(merged.get(nm, {})) <= 1:
+            nb += 1
+            (ha, ia), (hb, ib) = list(byb.items())[:2]
+            results[0]['violations'].append({
+                'sig': 'C03:R8body:%s' % re.sub(r'\d+', '#', nm), 'shard': ia[1], 'trace': [],
+                'detail': {'rule': 'R8', 'message': 'module name %s is emitted with the same ports but different bodies' % nm,
+                           'from_1': ia[1].get('design'), 'from_2': ib[1].get('design')}})
+    cov['shared_module_names_with_conflicting_body'] = nb
     cov['shared_module_names_seen'] = len(merged)
     cov['shared_module_names_with_conflicting_interface'] = n
     cov['outside_subset'] = sum(r.get('outside_subset', 0) for r in results)
